@@ -756,6 +756,7 @@ pub fn run_typed<I: HInp, P: InputPredictor<I> + 'static>(sc: &Scenario, opts: &
     let mut viols: Vec<Viol> = Vec::new();
     let mut aborted = false;
 
+    let mut round_t0_us = verif_hooks::clock::now_micros();
     'rounds: for tick in 0..total {
         let settle = tick >= sc.ticks;
         if tick == sc.ticks {
@@ -897,7 +898,27 @@ pub fn run_typed<I: HInp, P: InputPredictor<I> + 'static>(sc: &Scenario, opts: &
         }
 
         let dt = round_dt(sc, tick, settle);
-        if sc.fine_poll && dt > 1 {
+        if sc.wait_mode != 0 {
+            // parallel waits: the previous round began at `round_t0_us`; whatever part of dt the longest wait of
+            // that round has not used up yet passes now (with the millisecond polls of fine_poll)
+            let base = round_t0_us;
+            for m in 1..dt {
+                let tgt = base + m * 1000;
+                if tgt > verif_hooks::clock::now_micros() {
+                    verif_hooks::clock::set_micros(tgt);
+                    if sc.fine_poll {
+                        for pe in peers.iter_mut() {
+                            if pe.out.alive && tick >= pe.paused_until {
+                                poll_peer(pe, tick, &mut viols);
+                            }
+                        }
+                    }
+                }
+            }
+            if base + dt * 1000 > verif_hooks::clock::now_micros() {
+                verif_hooks::clock::set_micros(base + dt * 1000);
+            }
+        } else if sc.fine_poll && dt > 1 {
             // poll every millisecond between rounds
             for _ in 0..dt - 1 {
                 verif_hooks::clock::advance_millis(1);
@@ -955,7 +976,18 @@ pub fn run_typed<I: HInp, P: InputPredictor<I> + 'static>(sc: &Scenario, opts: &
                 order.swap(i, j);
             }
         }
+        round_t0_us = verif_hooks::clock::now_micros();
+        let mut round_end_us = round_t0_us;
+        let phase_of = |node: usize| -> u64 { if node < 100 { sc.phase_ms.get(node).copied().unwrap_or(0) as u64 } else { 0 } };
+        if sc.wait_mode != 0 {
+            order.sort_by_key(|n| phase_of(*n));
+        }
         for &node in &order {
+            if sc.wait_mode != 0 {
+                // every node's call of this round starts at the round's instant (plus the node's phase)
+                round_end_us = round_end_us.max(verif_hooks::clock::now_micros());
+                verif_hooks::clock::set_micros(round_t0_us + phase_of(node) * 1000);
+            }
             if node < 100 {
                 let slow = sc.peers[node].slow as u64;
                 let pe = &mut peers[node];
@@ -986,6 +1018,10 @@ pub fn run_typed<I: HInp, P: InputPredictor<I> + 'static>(sc: &Scenario, opts: &
                     aborted = true;
                 }
             }
+        }
+        if sc.wait_mode != 0 {
+            round_end_us = round_end_us.max(verif_hooks::clock::now_micros());
+            verif_hooks::clock::set_micros(round_end_us);
         }
         if tick % 60 == 0 || tick + 1 == total || tick == sc.ticks {
             out.progress_marks.push((tick, peers.iter().map(|p| p.sess.as_ref().map(|s| s.current_frame()).unwrap_or(-1)).collect()));
@@ -1137,7 +1173,7 @@ fn tick_peer<I: HInp, P: InputPredictor<I> + 'static>(
         if use_wait {
             // all three entry points of the lockstep wait helper, in rotation
             verif_hooks::clock::set_auto_tick_micros(100);
-            let r = match tick % 3 {
+            let r = match if sc.wait_mode == 1 { 0 } else if sc.wait_mode == 3 { 1 } else { tick % 3 } {
                 0 => s.advance_frame_with_wait(),
                 1 => s.advance_frame_with_wait_timeout(Duration::from_millis(3)),
                 _ => s.advance_frame_with_wait_timeout(Duration::from_micros(0)),
